@@ -615,6 +615,19 @@ func (x *Exec) effectsOf(nodes []ast.Node, st *St, fr *Frame, tainted map[*types
 					}
 				case *ast.CallExpr:
 					x.callEffect(s, f, st, depth, bind, pureLoc, addLoc, scan)
+				case *ast.SendStmt:
+					// ghost variables recorded by the protocol of the channel sent on
+					if id, ok := ast.Unparen(s.Chan).(*ast.Ident); ok && depth == 0 {
+						if cd := x.carryDecl(f, id.Name); cd != nil {
+							if cc := x.W.CS.ByKey["chan."+cd.Proto]; cc != nil {
+								for _, r := range cc.Records {
+									if g, ok := x.W.GhostVars[r.Var]; ok {
+										addLoc(g.Key, nil)
+									}
+								}
+							}
+						}
+					}
 				}
 				return true
 			})
@@ -1220,6 +1233,9 @@ func (x *Exec) rangeStmt(n *ast.RangeStmt, st *St, fr *Frame, k func(*St)) {
 			if keysVal != nil {
 				m["$keys"] = keysVal
 			}
+			// $n: the number of iterations the range was entered with (the integer ranged over, or the length of the
+			// sequence), so that an invariant need not name the local that holds it
+			m["$n"] = &Val{T: count, Ty: intTy}
 			return m
 		}
 		x.checkInvariants(st, fr, c, key, "init", withKeys(map[string]*Val{"$i": {T: IntLit(0), Ty: intTy}}), n.Pos())
